@@ -51,7 +51,7 @@ STUBS = [
     'a target that is already a well-formed escaped string is emitted unchanged (documented check-escaped behaviour)',
 ]
 OUTSIDE = ['expires as arbitrary datetimes (menu)', 'header values beyond latin-1 on WSGI', 'histories longer than 3 operations']
-BUDGET = {'quick': 300, 'thorough': 900}
+BUDGET = {'quick': 380, 'thorough': 900}
 
 NAMES = ['X-A', 'x-a', 'Content-Type', 'CONTENT-TYPE']
 COOKIE_HDR = ['Set-Cookie', 'set-cookie', 'SET-COOKIE']
